@@ -1,4 +1,6 @@
 import PgFdr.Proofs.C19
+import PgFdr.Proofs.C19Char
+import PgFdr.Proofs.C19Annot
 
 /-!
 # C19 — FASTA header fields and annotation columns are extracted exactly
@@ -12,9 +14,12 @@ reporting uses the gene names as identifiers unless most records lack one, in wh
 pseudo-genes from shared peptides are used instead."
 
 The theorems are about the executable model `PgFdr.C19` (the functions the driver ops "header" /
-"annotations" run).  Headers are read as their space-separated words; that this agrees with the
-character-level `str.split(" OS=")` of the code is validated on every run by the correspondence of
-`harness/props/C19.py`, not proved.  Helper lemmas: `PgFdr/Proofs/C19.lean`.
+"annotations" run).  The model has two readings of a header: the CHARACTER-level functions
+`parse*Char` / `annotateChar` that mirror the Python expressions (`str.split(" OS=")`, `in`, `[1]`,
+`" ".join`) and are what the driver op "header" executes against the real code, and the word-level
+functions `parse*` / `annotate` on the list of space-separated words.  `char_level_eq_token_level`
+proves the two equal on EVERY string, `header_roundtrip_char` is the round trip for the
+character-level functions.  Helper lemmas: `PgFdr/Proofs/C19.lean`, `PgFdr/Proofs/C19Char.lean`.
 -/
 namespace PgFdr.C19
 
@@ -61,6 +66,84 @@ theorem organism_needs_gene (f : Fields) (h : f.WF) (hg : f.gene = none) :
   intro e
   have := congrArg List.length (Option.some.inj e)
   simp at this
+
+/-- "the parsed … equal the fields the header was composed of" needs the parsers the code runs:
+    the character-level functions (`fasta_header.split(" OS=")[1].split(" GN=")[0]`, `" PE=" in
+    fasta_header`, `" ".join(….split(" ")[1:])`, …) return, on EVERY header `s` — composed or not,
+    with empty words, tabs, repeated or missing keys — what the word-level functions return on
+    `s.split(" ")`; hence the whole annotation agrees for each identifier rule -/
+theorem char_level_eq_token_level (s : List Char) :
+    parseIdChar s = parseId (words s) ∧
+    parseUniprotIdChar s = parseUniprotId (words s) ∧
+    parseEntryNameChar s = parseEntryName (words s) ∧
+    parseGeneChar s = parseGene (words s) ∧
+    parseDescriptionChar s = unwords (parseDescription (words s)) ∧
+    parseExistenceChar s = parseExistence (words s) ∧
+    parseOrganismChar s = (parseOrganism (words s)).map unwords ∧
+    (∀ rule n, annotateChar rule s n = annotate rule s n) :=
+  ⟨parseIdChar_eq s, parseUniprotIdChar_eq s, parseEntryNameChar_eq s, parseGeneChar_eq s,
+    parseDescriptionChar_eq s, parseExistenceChar_eq s, parseOrganismChar_eq s,
+    fun rule n => annotateChar_eq rule s n⟩
+
+/-- the lemma behind it — Python's `s.split(" " + key)` on blank-free words joined by single blanks
+    (every string is one: `unwords_words`, `words_blankfree`) cuts exactly at the first word after
+    the identifier that starts with the key, and continues in the rest of that word -/
+theorem split_key_of_joined_words (key : List Char) (hk : ' ' ∉ key) (t0 : Tok) (ts : List Tok)
+    (h0 : ' ' ∉ t0) (hts : ∀ t ∈ ts, ' ' ∉ t) :
+    splitStrAux (' ' :: key) 0 (unwords (t0 :: ts)) =
+      match fromFirst (startsWith key) ts with
+      | none => [unwords (t0 :: ts)]
+      | some (t, r) =>
+        unwords (t0 :: before (startsWith key) ts) ::
+          splitStrAux (' ' :: key) 0 (unwords (t.drop key.length :: r)) :=
+  splitKey_unwords key hk ts t0 h0 hts
+
+/-- for a header composed of well-formed, blank-free fields the character-level parsers return on
+    the header TEXT what the word-level parsers return on the composed words -/
+theorem char_level_eq_token_level_composed (f : Fields) (hb : f.NoBlank) (hpe : f.pe < 10) :
+    parseIdChar (render f) = parseId (compose f) ∧
+    parseUniprotIdChar (render f) = parseUniprotId (compose f) ∧
+    parseEntryNameChar (render f) = parseEntryName (compose f) ∧
+    parseGeneChar (render f) = parseGene (compose f) ∧
+    parseDescriptionChar (render f) = unwords (parseDescription (compose f)) ∧
+    parseExistenceChar (render f) = parseExistence (compose f) ∧
+    parseOrganismChar (render f) = (parseOrganism (compose f)).map unwords := by
+  have hw := words_render f hb hpe
+  refine ⟨?_, ?_, ?_, ?_, ?_, ?_, ?_⟩ <;>
+    simp only [parseIdChar_eq, parseUniprotIdChar_eq, parseEntryNameChar_eq, parseGeneChar_eq,
+      parseDescriptionChar_eq, parseExistenceChar_eq, parseOrganismChar_eq, hw]
+
+/-- "the parsed protein identifier, accession, entry name, gene name, description, existence level,
+    organism (for headers that carry a gene name) … equal the fields the header was composed of"
+    — for the CHARACTER-level parsers on the header text.  `NoBlank` (no blank inside a field) is
+    the one hypothesis added to `header_roundtrip`'s: a field with a blank is not recovered by the
+    code either (`acc = "P1 x"`: `parse_uniprot_id("sp|P1 x|E …") = "P1"`, see the example below) -/
+theorem header_roundtrip_char (f : Fields) (h : f.WF) (hb : f.NoBlank) :
+    parseIdChar (render f) = f.ident ∧
+    parseUniprotIdChar (render f) = f.acc ∧
+    parseEntryNameChar (render f) = f.entry ∧
+    parseGeneChar (render f) = f.gene ∧
+    parseDescriptionChar (render f) = unwords f.desc ∧
+    parseExistenceChar (render f) = some (some f.pe) ∧
+    (∀ g, f.gene = some g → parseOrganismChar (render f) = some (unwords (f.org ++ [OX ++ f.ox]))) ∧
+    (f.gene = none → parseOrganismChar (render f) =
+        some (unwords (f.org ++ [OX ++ f.ox, PE ++ [Nat.digitChar f.pe], SV ++ f.sv]))) := by
+  obtain ⟨c1, c2, c3, c4, c5, c6, c7⟩ := char_level_eq_token_level_composed f hb h.peDigit
+  obtain ⟨r1, r2, r3, r4, r5, r6, r7⟩ := header_roundtrip f h
+  refine ⟨c1.trans r1, c2.trans r2, c3.trans r3, c4.trans r4, by rw [c5, r5], c6.trans r6, ?_, ?_⟩
+  · intro g hg; rw [c7, r7 g hg]; rfl
+  · intro hg; rw [c7, (organism_needs_gene f h hg).1]; rfl
+
+/-- the same through `annotateChar` — what the driver op "header" runs against the real
+    `parse_*` calls of `read_fasta_proteins` — for each identifier rule -/
+theorem header_roundtrip_char_annotation (rule : IdRule) (f : Fields) (h : f.WF) (hb : f.NoBlank) (n : Nat) :
+    annotateChar rule (render f) n = .ok
+      { id := match rule with | .full => some f.ident | .accession => some f.acc | .gene => f.gene,
+        header := render f, uniprotId := f.acc, entryName := f.entry, geneName := f.gene, length := n,
+        organism := some (unwords (f.org ++ [OX ++ f.ox] ++
+          (if f.gene.isSome then [] else [PE ++ [Nat.digitChar f.pe], SV ++ f.sv]))),
+        description := unwords f.desc, existence := some f.pe } := by
+  rw [annotateChar_eq]; exact header_roundtrip_text rule f h hb n
 
 /-- "… and sequence length": a file written record by record (header line, sequence lines; no line
     ends in white space, no sequence line starts with `>`) is read back as exactly these records
@@ -173,5 +256,183 @@ example : ∃ r : FastaRecord, r.Clean ∧ r.seqLength = 7 :=
     rcases hl with hl | hl <;> subst hl <;> decide +kernel, by decide +kernel⟩
 
 example : distinct [2, 1, 2, 3, 1] = [2, 1, 3] := by decide
+
+/-! Character level: the concrete record is parsed by the `str.split` mirror (kernel evaluation of
+`splitStrAux`), and the hypothesis `NoBlank` is needed — with a blank inside the accession the
+word-level model of `compose` would return the field, the character-level functions (and the
+code: `parse_uniprot_id("sp|P1 x|E_H d OS=o OX=1 PE=1 SV=1") == "P1"`) do not. -/
+
+example : (parseOrganismChar (render ex)).map String.ofList = some "Homo sapiens OX=9606" ∧
+    String.ofList (parseDescriptionChar (render ex)) = "Cytochrome b5 [isoform 2] OS GN PE" ∧
+    (parseGeneChar (render ex)).map String.ofList = some "CYB5A" ∧
+    parseExistenceChar (render ex) = some (some 1) := by
+  decide +kernel
+
+example : (splitStr " OS=" "a OS=b OS=c  OS= OS=".toList).map String.ofList = ["a", "b", "c ", "", ""] := by
+  decide +kernel
+
+private def exBlank : Fields :=
+  { db := "sp".toList, acc := "P1 x".toList, entry := "E_H".toList, desc := ["d".toList],
+    org := ["o".toList], ox := "1".toList, gene := none, pe := 1, sv := "1".toList }
+
+example : exBlank.WF ∧ parseUniprotId (compose exBlank) = exBlank.acc ∧
+    parseUniprotIdChar (render exBlank) = "P1".toList ∧ ¬ exBlank.NoBlank := by
+  refine ⟨by constructor <;> decide +kernel, by decide +kernel, by decide +kernel, ?_⟩
+  intro hb; exact absurd hb.acc (by decide +kernel)
+
+/-- "… and sequence length", for the function the annotation path executes: `read_fasta_proteins`
+    (`readProteins`, the recursion `getAnnotations` runs — it annotates every record when the reader yields
+    it) is the reader `readFasta` of `sequence_length` followed by the annotation of its records, in order:
+    whenever the reader succeeds the two agree (also in WHICH `int()` failure surfaces), and a reader failure
+    is a failure of the annotation path -/
+theorem read_proteins_is_annotated_read_fasta (concat : Bool) (rule : IdRule) (lines : List (List Char)) :
+    (∀ recs, readFasta concat lines = .ok recs → readProteins concat rule lines = annotateAll rule recs) ∧
+    (∀ e, readFasta concat lines = .error e → ∃ e', readProteins concat rule lines = .error e') :=
+  ⟨fun recs h => readProteinsLoop_of_readLoop concat rule lines _ recs h,
+   fun e h => readProteinsLoop_error_of_readLoop concat rule lines _ e h⟩
+
+/-- "… and sequence length" on the annotation path: for a file written record by record (header line, sequence
+    lines; no line ends in white space, no sequence line starts with `>`), whatever the headers are, the
+    annotations `read_fasta_proteins` returns are — in file order, target then `REV__` decoy when decoys are
+    generated — one per yielded record, each carrying that record's header and the total length of its sequence
+    lines -/
+theorem sequence_length_annotations (concat : Bool) (rule : IdRule) (recs : List FastaRecord)
+    (h : ∀ r ∈ recs, r.Clean) (as : List Annotation)
+    (ha : readProteins concat rule (recs.flatMap FastaRecord.lines) = .ok as) :
+    as.map (fun a => (a.header, a.length)) =
+      recs.flatMap (fun r =>
+        if concat then [(r.header, r.seqLength), (decoyPrefix ++ r.header, r.seqLength)]
+        else [(r.header, r.seqLength)]) := by
+  rw [(read_proteins_is_annotated_read_fasta concat rule _).1 _ (sequence_length concat recs h)] at ha
+  exact annotateAll_header_length rule _ as ha
+
+/-- End to end: `get_protein_annotations` on ONE FASTA file whose records are composed — every header line is
+    `>` + the text rendered from well-formed, blank-free fields, followed by clean sequence lines.
+    With `A rule` the list of the annotations the fields stand for (`composedAnnotations`: per record, in file
+    order, `expected rule f n` — identifier by the rule, accession, entry name, gene name, description,
+    existence level and organism of `f`, `n` the total length of the record's sequence lines — and, when the
+    FASTA file has no decoys, the same for the generated `REV__` record), the returned dictionary is
+    `single (A rule)`: the FIRST record wins for a repeated identifier.  The rule is the accession / the full
+    identifier; at gene level it is the gene name when more than half of the entries carry one, else the
+    ordinary dictionary is kept and pseudo-genes are requested. -/
+theorem annotations_of_composed_file (crs : List ComposedRecord) (hgood : ∀ c ∈ crs, c.Good) (hne : crs ≠ [])
+    (containsDecoys geneLevel useUniprot : Bool) :
+    let rule := if useUniprot then IdRule.accession else IdRule.full
+    let A := fun r => composedAnnotations (!containsDecoys) r crs
+    getAnnotations (some [composedFile crs]) containsDecoys geneLevel useUniprot =
+      .ok (if geneLevel then
+            (if 2 * geneCount (single (A rule)) > (single (A rule)).length then (single (A .gene), false)
+             else (single (A rule), true))
+           else (single (A rule), false)) ∧
+    ∀ r k, Dict.get? (single (A r)) k = (A r).find? (fun a => decide (a.id = k)) := by
+  intro rule A
+  have hread : ∀ r, readProteins (!containsDecoys) r (composedFile crs) = .ok (A r) := by
+    intro r
+    have hclean : ∀ x ∈ crs.map ComposedRecord.toRecord, x.Clean := by
+      intro x hx
+      obtain ⟨c, hc, rfl⟩ := List.mem_map.mp hx
+      exact (hgood c hc).2.2
+    have hfile : composedFile crs = (crs.map ComposedRecord.toRecord).flatMap FastaRecord.lines := by
+      simp [composedFile, List.flatMap_map]
+    rw [hfile, (read_proteins_is_annotated_read_fasta _ r _).1 _ (sequence_length _ _ hclean)]
+    exact annotateAll_composed _ r crs hgood
+  have hmult : ∀ r, multiple (!containsDecoys) r [composedFile crs] = .ok (single (A r)) := by
+    intro r
+    rw [multiple_one, hread r]
+  refine ⟨?_, fun r k => first_record_wins (A r) k⟩
+  have hd := hmult rule
+  have hdne : single (A rule) ≠ [] := single_ne_nil _ (composedAnnotations_ne_nil _ rule crs hne)
+  obtain ⟨h1, h2, h3⟩ := gene_level_switch [composedFile crs] containsDecoys useUniprot (single (A rule)) hd hdne
+  cases geneLevel
+  · simpa using h3
+  · simp only [if_true]
+    by_cases hg : 2 * geneCount (single (A rule)) > (single (A rule)).length
+    · rw [h1 hg, hmult .gene]; simp [hg]
+    · rw [h2 (by omega)]; simp [hg]
+
+/-- the same, record by record and field by field: "the parsed protein identifier, accession, entry name, gene
+    name, description, existence level, organism (for headers that carry a gene name) and sequence length equal
+    the fields the header was composed of, and within one file the first record wins" — for the dictionary
+    `get_protein_annotations` returns (protein level).  A composed record `c` none of whose predecessors in the file
+    (their generated decoys included) has its identifier is found under its identifier — the accession with
+    `--fasta_use_uniprot_id`, the full `db|ACC|ENTRY` otherwise — and the entry holds `c`'s header text, its eight
+    fields, and is what the character-level parsers (`annotateChar`, the mirror of the Python expressions) make
+    of the header text. -/
+theorem annotations_of_composed_record (pre post : List ComposedRecord) (c : ComposedRecord)
+    (hgood : ∀ x ∈ pre ++ c :: post, x.Good) (containsDecoys useUniprot : Bool)
+    (hfirst : ∀ a ∈ composedAnnotations (!containsDecoys) (if useUniprot then .accession else .full) pre,
+        a.id ≠ some (if useUniprot then c.fields.acc else c.fields.ident)) :
+    ∃ d a, getAnnotations (some [composedFile (pre ++ c :: post)]) containsDecoys false useUniprot = .ok (d, false) ∧
+      Dict.get? d (some (if useUniprot then c.fields.acc else c.fields.ident)) = some a ∧
+      a.header = render c.fields ∧
+      a.id = some (if useUniprot then c.fields.acc else c.fields.ident) ∧
+      a.uniprotId = c.fields.acc ∧ a.entryName = c.fields.entry ∧ a.geneName = c.fields.gene ∧
+      a.description = unwords c.fields.desc ∧ a.existence = some c.fields.pe ∧
+      a.length = (c.seqLines.map List.length).sum ∧
+      (∀ g, c.fields.gene = some g → a.organism = some (unwords (c.fields.org ++ [OX ++ c.fields.ox]))) ∧
+      annotateChar (if useUniprot then .accession else .full) (render c.fields) a.length = .ok a := by
+  obtain ⟨hrun, hget⟩ := annotations_of_composed_file (pre ++ c :: post) hgood (by simp) containsDecoys false useUniprot
+  simp only [Bool.false_eq_true, if_false] at hrun
+  obtain ⟨hw, hb, -⟩ := hgood c (by simp)
+  refine ⟨_, expected (if useUniprot then .accession else .full) c.fields c.toRecord.seqLength, hrun, ?_, rfl, ?_,
+    rfl, rfl, rfl, rfl, rfl, rfl, ?_, ?_⟩
+  · have hget' : ∀ k, Dict.get? (single (composedAnnotations (!containsDecoys)
+          (if useUniprot then IdRule.accession else IdRule.full) (pre ++ c :: post))) k =
+        (composedAnnotations (!containsDecoys) (if useUniprot then IdRule.accession else IdRule.full)
+          (pre ++ c :: post)).find? (fun a => decide (a.id = k)) := fun k => hget _ k
+    rw [hget']
+    have hsplit : composedAnnotations (!containsDecoys) (if useUniprot then IdRule.accession else IdRule.full)
+          (pre ++ c :: post) =
+        composedAnnotations (!containsDecoys) (if useUniprot then .accession else .full) pre ++
+          (expected (if useUniprot then .accession else .full) c.fields c.toRecord.seqLength ::
+            ((if (!containsDecoys) = true then
+                [expected (if useUniprot then .accession else .full) (decoyFields c.fields) c.toRecord.seqLength]
+              else []) ++
+              composedAnnotations (!containsDecoys) (if useUniprot then .accession else .full) post)) := by
+      unfold composedAnnotations
+      rw [List.flatMap_append, List.flatMap_cons]
+      cases containsDecoys <;> simp
+    rw [hsplit, List.find?_append]
+    have hnone : List.find? (fun a => decide (a.id = some (if useUniprot then c.fields.acc else c.fields.ident)))
+        (composedAnnotations (!containsDecoys) (if useUniprot then .accession else .full) pre) = none := by
+      rw [List.find?_eq_none]
+      intro a ha
+      simpa using hfirst a ha
+    rw [hnone]
+    cases useUniprot <;> simp [List.find?, expected]
+  · cases useUniprot <;> rfl
+  · intro g hg
+    simp [expected, hg]
+  · rw [annotateChar_eq]
+    exact annotate_render _ c.fields hw hb _
+
+/-! Non-vacuity: a file of three composed records — the record of the examples above with a wrapped sequence, a
+second protein without gene name, and a REPEAT of the first identifier with another description — satisfies `Good`;
+the dictionary has the first record under the repeated identifier, with the length 7 of its two sequence lines. -/
+
+private def exRec1 : ComposedRecord := { fields := ex, seqLines := ["MAEQ".toList, "SDK".toList] }
+private def exRec2 : ComposedRecord :=
+  { fields := { ex with acc := "Q9Y6K9".toList, entry := "NEMO_HUMAN".toList, desc := ["NEMO".toList], gene := none },
+    seqLines := ["MNRHLWK".toList] }
+private def exRec3 : ComposedRecord := { fields := { ex with desc := ["duplicate".toList] }, seqLines := ["MM".toList] }
+
+private theorem exGood : ∀ c ∈ [exRec1, exRec2, exRec3], c.Good := by
+  have hclean : ∀ (f : Fields) (sl : List (List Char)), rstrip ('>' :: render f) = '>' :: render f →
+      render f ≠ [] → (∀ l ∈ sl, rstrip l = l ∧ l.head? ≠ some '>') →
+      (ComposedRecord.toRecord { fields := f, seqLines := sl }).Clean := fun f sl h1 h2 h3 => ⟨h2, h1, h3⟩
+  intro c hc
+  simp only [List.mem_cons, List.not_mem_nil, or_false] at hc
+  rcases hc with rfl | rfl | rfl
+  all_goals
+    refine ⟨by constructor <;> decide +kernel,
+      by constructor <;> first | decide +kernel | (intro g hg; cases hg; decide +kernel) | (intro g hg; cases hg), ?_⟩
+    exact hclean _ _ (by decide +kernel) (by decide +kernel) (by decide +kernel)
+
+example : ∃ d a, getAnnotations (some [composedFile [exRec1, exRec2, exRec3]]) true false true = .ok (d, false) ∧
+    Dict.get? d (some "P00167-2".toList) = some a ∧ a.length = 7 ∧
+    a.description = "Cytochrome b5 [isoform 2] OS GN PE".toList := by
+  obtain ⟨d, a, h1, h2, -, -, -, -, -, h3, -, h4, -, -⟩ :=
+    annotations_of_composed_record [] [exRec2, exRec3] exRec1 exGood true true (by simp [composedAnnotations])
+  exact ⟨d, a, h1, h2, by rw [h4]; decide +kernel, by rw [h3]; decide +kernel⟩
 
 end PgFdr.C19
